@@ -1,5 +1,17 @@
-(* C15 — property theorems (bootstrap stage; see DESIGN.md section 6). *)
-From Verif Require Import Inflate.
-Theorem C15_spec_inflater_runs : status (inflate [] [3;0]) = Done /\ out (inflate [] [3;0]) = [].
-Proof. vm_compute. split; reflexivity. Qed.
-Print Assumptions C15_spec_inflater_runs.
+(* C15 — property theorems.  Model: RModel/Reader.v.
+   Only statements, each closed by `exact`, followed by Print Assumptions. *)
+From Verif Require Import Reader ReaderProofs InflateMono.
+Open Scope N_scope.
+
+(* the source fails before the stream is complete: exactly that error, after a prefix of the data *)
+Theorem C15_source_error_reported : forall dict chunks e,
+  status (inflate dict (concat chunks)) = NeedInput ->
+  rerror (rrun dict chunks (TErr e)) = RSrc e /\
+  is_prefix (rbytes (rrun dict chunks (TErr e))) (out (inflate dict (concat chunks))).
+Proof. exact (source_error_reported inflate_mono inflate_never_fuel). Qed.
+Print Assumptions C15_source_error_reported.
+
+Theorem C15_prefix_of_full_output : forall dict chunks term more,
+  is_prefix (rbytes (rrun dict chunks term)) (out (inflate dict (concat chunks ++ more))).
+Proof. exact (bytes_are_reference_prefix inflate_mono inflate_never_fuel). Qed.
+Print Assumptions C15_prefix_of_full_output.
